@@ -415,42 +415,45 @@ Proof.
   apply andb_prop in E as [_ E]. apply negb_true_iff, cs_eqb_false in E. apply H; [reflexivity|exact E].
 Qed.
 
+Lemma vgood_on_lconn s c f : (forall k, getc s c = Some k -> k_st k <> Connecting -> vgood s (f k)) -> vgood s (on_lconn s c f).
+Proof. intros H. unfold on_lconn. apply vgood_on_conn. intros k Hg Hn. destruct (gone s (k_loop k)); [exact I|apply H; assumption]. Qed.
+
 (* every step of the owners model (under its environment hypotheses) moves every connection's view along L *)
 Theorem vgood_step s o : Inv s -> vgood s (step true s o).
 Proof.
   intros [[G HC] HH]. destruct o; cbn [step].
   - apply vgood_finish, vgood_accept.
-  - destruct (negb (s_srv s)); [exact I|]. destruct (_ && _); [exact I|]. apply vgood_finish.
+  - destruct (negb (s_srv s)); [exact I|]. destruct (_ && _); [exact I|]. destruct (_ && _); [exact I|]. apply vgood_finish.
     apply vgood_bind; [apply vgood_srv_destroy_from|]. intros s1. apply vgood_ret, same_v_conns. reflexivity.
   - apply vgood_finish, vgood_cli_connect.
   - apply vgood_finish, vgood_cli_destroy.
-  - destruct (getl s l) as [v|]; [|exact I]. destruct (q_idle v); [|exact I]. apply vgood_ret, same_v_conns. reflexivity.
+  - destruct (getl s l) as [v|]; [|exact I]. destruct (q_idle v && negb (gone s l)); [|exact I]. apply vgood_ret, same_v_conns. reflexivity.
   - destruct (getl s l) as [v|] eqn:Hv; [|exact I]. destruct (q_batch v) as [|t rest] eqn:Hb; [exact I|]. apply vgood_finish.
     match goal with |- vgood s (run_task ?s1 _ _ _ _) => apply (vgood_weaken s s1); [apply same_v_conns; reflexivity|] end.
     apply vgood_run_task.
     intros Hn k Hk. change (getc s (task_conn t) = Some k) in Hk. assert (Hin : In t (q_all v)) by (unfold q_all; rewrite Hb; apply in_or_app; right; left; reflexivity).
     destruct (gi_placed s G l v t Hv Hin) as [_ [_ Hpl]].
     destruct t; try discriminate Hn; destruct Hpl as (k1 & Hk1 & _ & Hs); rewrite Hk1 in Hk; injection Hk as <-; apply Hs, Hn.
-  - destruct (getl s l) as [v|]; [|exact I]. destruct (q_batch v); [|exact I]. destruct (q_spent v); [exact I|].
-    apply vgood_finish, vgood_ret, same_v_conns. reflexivity.
+  - destruct (getl s l) as [v|]; [|exact I]. destruct (q_batch v); [|exact I]. destruct (negb (q_drain v)); [exact I|].
+    destruct (quitting s l); [destruct (_ && _); [exact I|]|]; apply vgood_finish, vgood_ret, same_v_conns; reflexivity.
   - destruct (getc s c) as [k|]; [|exact I]. apply vgood_finish, vgood_ev_step.
   - destruct (getc s c) as [k|] eqn:Hg; [|exact I]. destruct (k_delayed k); [exact I|]. destruct (negb _); [exact I|].
     apply vgood_finish, vgood_move.
     assert (L : vmove s (put s c (set_own k (k_ccb k) (k_mapped k) (k_urefs k) n))).
     { apply vmove_same, same_v_put. intros k0 Hk0 Hv. rewrite Hg in Hk0. injection Hk0 as <-. split; [exact Hv|reflexivity]. }
     destruct (k_alive k); [eapply vmove_trans; [exact L|apply vmove_force_close]|exact L].
-  - apply vgood_on_conn. intros k Hg Hn. apply vgood_move. destruct (cstate_eqb (k_st k) Connected) eqn:Ec; [|apply vmove_refl].
+  - apply vgood_on_lconn. intros k Hg Hn. apply vgood_move. destruct (cstate_eqb (k_st k) Connected) eqn:Ec; [|apply vmove_refl].
     apply cs_eqb_true in Ec. apply (vmove_put s c k _ LDisc Hg). intros Hv.
     assert (Hcl : k_closable k = true) by (unfold k_closable; rewrite Ec; reflexivity).
     destruct (disc_step k Hcl Hv) as [A B]. unfold shutdown_in_loop. destruct (k_wr _); split; auto.
-  - apply vgood_on_conn. intros k Hg Hn. apply vgood_move, vmove_force_close.
-  - apply vgood_on_conn. intros k Hg Hn. apply vgood_move. destruct (k_closable k) eqn:Ec; [|apply vmove_refl].
+  - apply vgood_on_lconn. intros k Hg Hn. apply vgood_move, vmove_force_close.
+  - apply vgood_on_lconn. intros k Hg Hn. apply vgood_move. destruct (k_closable k) eqn:Ec; [|apply vmove_refl].
     apply (vmove_put s c k _ LDisc Hg). intros Hv. destruct (disc_step k Ec Hv) as [A B]. split; [exact A|exact B].
-  - apply vgood_on_conn. intros k Hg Hn. apply vgood_move. destruct (cstate_eqb (k_st k) Connected); [|apply vmove_refl].
+  - apply vgood_on_lconn. intros k Hg Hn. apply vgood_move. destruct (cstate_eqb (k_st k) Connected); [|apply vmove_refl].
     apply vmove_send_in_loop. intros k0 Hk0. rewrite Hg in Hk0. injection Hk0 as <-. exact Hn.
-  - apply vgood_on_conn. intros k Hg Hn. destruct (k_added k); [|exact I]. apply vgood_move, vmove_start_read.
+  - apply vgood_on_lconn. intros k Hg Hn. destruct (k_added k); [|exact I]. apply vgood_move, vmove_start_read.
     intros k0 Hk0. rewrite Hg in Hk0. injection Hk0 as <-. exact Hn.
-  - apply vgood_on_conn. intros k Hg Hn. destruct (k_added k); [|exact I]. apply vgood_move, vmove_stop_read.
+  - apply vgood_on_lconn. intros k Hg Hn. destruct (k_added k); [|exact I]. apply vgood_move, vmove_stop_read.
     intros k0 Hk0. rewrite Hg in Hk0. injection Hk0 as <-. exact Hn.
   - apply vgood_on_conn. intros k Hg Hn. apply vgood_ret, same_v_put. intros k0 Hk0 Hv. rewrite Hg in Hk0. injection Hk0 as <-. split; [exact Hv|reflexivity].
   - destruct (getc s c) as [k|] eqn:Hg; [|exact I]. destruct (k_urefs k); [exact I|]. destruct (_ && _ && _ && _ && _); [exact I|].
@@ -478,7 +481,7 @@ Proof.
       match goal with |- same_v s (set_cli (put ?s1 _ _) _ _) => apply (same_v_trans s s1); [apply same_v_conns; reflexivity|];
         apply (same_v_trans s1 (put s1 (a_conn a) (set_own k (k_ccb k) false (k_urefs k) (k_delayed k)))); [|apply same_v_conns; reflexivity] end.
       apply same_v_put. intros k0 Hk0 Hv. change (getc s (a_conn a) = Some k0) in Hk0. rewrite Hg in Hk0. injection Hk0 as <-. split; [exact Hv|reflexivity]. }
-    destruct (_ && _ && _ && _); [exact I|].
+    destruct (_ && _ && _ && _); [exact I|]. destruct (a_loaded a && gone s (k_loop k)); [exact I|].
     apply vgood_finish, vgood_ret. destruct (a_loaded a); [|apply same_v_conns; reflexivity].
     destruct (a_api a); try (apply same_v_conns; reflexivity); match goal with |- same_v s (enq ?s1 _ _) => apply (same_v_trans s s1); [apply same_v_conns; reflexivity|apply same_v_enq] end.
 Qed.
